@@ -22,6 +22,7 @@ const modulePath = "github.com/aptpod/iscp-go"
 func parserParseExpr(s string) (ast.Expr, error) { return parser.ParseExpr(s) }
 
 type Engine struct {
+	lockSums map[*ssa.Function][]string // mutexes of its receiver a method may acquire (locksum.go)
 	extIface map[string]*FuncContract // assumed contracts of interfaces declared outside the module
 
 	repo       string
